@@ -331,13 +331,33 @@ def r6_counter_arithmetic(chk: Check):
         if isinstance(e, ast.Call) and isinstance(e.func, ast.Name) and len(e.args) == 1 and not e.keywords:
             hv = [ff for ff in tree.funcs.values() if ff.parent is f and ff.node.name == e.func.id]
             if hv:
-                rets = [x for x in body_walk(hv[0].node) if isinstance(x, ast.Return)]
-                if len(rets) != 1 or len(hv[0].node.args.args) != 1:
+                if len(hv[0].node.args.args) != 1:
                     raise ValueError(f"{e.func.id}()")
                 saved = at[0]
                 at[0] = None
+                env2 = {hv[0].node.args.args[0].arg: ev(e.args[0], env)}
+
+                def run(stmts):
+                    for st_ in stmts:
+                        if isinstance(st_, ast.Return):
+                            return ("ret", ev(st_.value, env2))
+                        if isinstance(st_, ast.If):
+                            r_ = run(st_.body if ev(st_.test, env2) else st_.orelse)
+                            if r_ is not None:
+                                return r_
+                        elif isinstance(st_, ast.Assign) and len(st_.targets) == 1 and isinstance(st_.targets[0], ast.Name):
+                            env2[st_.targets[0].id] = ev(st_.value, env2)
+                        elif isinstance(st_, (ast.Pass,)) or (isinstance(st_, ast.Expr) and isinstance(st_.value, ast.Constant)):
+                            continue
+                        else:
+                            raise ValueError(f"{e.func.id}()")
+                    return None
+
                 try:
-                    return ev(rets[0].value, {hv[0].node.args.args[0].arg: ev(e.args[0], env)})
+                    r_ = run(hv[0].node.body)
+                    if r_ is None:
+                        raise ValueError(f"{e.func.id}() falls off its end")
+                    return r_[1]
                 finally:
                     at[0] = saved
         if isinstance(e, ast.Call) and dotted(e.func) == "int" and len(e.args) == 1:
